@@ -21,6 +21,9 @@ Decides:
  S sections         extract_sections records the level itself, walks the item list produced by append_meta directly (every
                     HelpItem::Command, no type-filtered view) and recurses with the command's own meta/info;
                     collect_html and render_manpage both build their documents from extract_sections + the --help pipeline.
+ H style reset     in the BlockStart / BlockEnd arms of render_html and render_markdown the style reset precedes every other write of the
+                    arm (inline tags are closed before a block tag opens: `<b>title</b><div>`, never `<b>title<div></b>`).
+ K doc writers     see C12.
 Does not decide: that the byte loop is a complete roff escaper for every input; markdown well-formedness."""
 import re
 from core import *
